@@ -92,10 +92,15 @@ fn params(c: &Case) -> BaseBandModulationParams {
 }
 
 /// Evaluates one case; returns (signature, what) for each violation, plus (nontrivial, value).
+/// Nominal LoRa bandwidths as the datasheets print them (7.81, 10.42, 15.63, 20.83, 31.25, 41.67, 62.5,
+/// 125, 250, 500 kHz), in Hz, in the order of `BWS`.
+pub const NOMINAL_BW_HZ: [u32; 10] = [7_810, 10_420, 15_630, 20_830, 31_250, 41_670, 62_500, 125_000, 250_000, 500_000];
+
 fn eval(c: &Case, prev: Option<u32>) -> (Vec<(String, String)>, bool, Option<u32>) {
     let p = params(c);
     let pre = if c.preamble < 0 { None } else { Some(c.preamble as u8) };
-    let (pos, want) = reference(SFS[c.sf].factor(), BWS[c.bw].hz(), CRS[c.cr].denom(), p.ldro, pre, c.explicit, c.len);
+    // the bandwidth comes from the datasheet's nominal values, not from the crate's own table
+    let (pos, want) = reference(SFS[c.sf].factor(), NOMINAL_BW_HZ[c.bw], CRS[c.cr].denom(), p.ldro, pre, c.explicit, c.len);
     let numclass = if pos { "num>0" } else { "num<=0" };
     let mut v = vec![];
     let got = catch(|| p.time_on_air_us(pre, c.explicit, c.len));
@@ -202,7 +207,7 @@ pub fn run(tier: Tier, replay: Option<&str>) {
         coverage,
         vec![
             "reference = Semtech AN1200.13 / SX127x datasheet formula with CRC on, evaluated in i128/u128".into(),
-            "symbol time truncated to the microsecond from the crate's nominal Bandwidth::hz(), as documented".into(),
+            "symbol time truncated to the microsecond from the datasheet's nominal bandwidth values (own table, not the crate's Bandwidth::hz())".into(),
             "overflow-checks are enabled in the harness build, so an intermediate u32/i32 overflow is a panic".into(),
         ],
         Some(&replayer),
